@@ -246,6 +246,39 @@ Arguments sqlToken _ _ : assert.
 Lemma zopt_lt0 : forall o, Z.ltb (zopt o) 0 = match o with Some _ => false | None => true end.
 Proof. intros [n|]; cbn [zopt]; [apply Z.ltb_ge; lia|reflexivity]. Qed.
 
+Lemma ltb_nat_c : forall (k : Z) (n : nat), 0 <= k -> Z.ltb k (Z.of_nat n) = Nat.ltb (Z.to_nat k) n.
+Proof. intros. destruct (Z.ltb_spec k (Z.of_nat n)), (Nat.ltb_spec (Z.to_nat k) n); try reflexivity; lia. Qed.
+
+(* The top of sqlToken is a chain of tests on the first byte.  Rather than following the chain in
+   the order of the source, the proof decides one atomic test at a time, on whichever side still has
+   an undecided `if`, so the order of the cases and of the operands of && / || does not matter. *)
+Ltac left_atom b :=
+  lazymatch b with
+  | ?x && _ => left_atom x
+  | ?x || _ => left_atom x
+  | negb ?x => left_atom x
+  | match ?o with Some _ => _ | None => _ end => o
+  | _ => b
+  end.
+Ltac decide_atom b := let a := left_atom b in let E := fresh "E" in destruct a eqn:E; cbn [andb orb negb zopt].
+Ltac step_lhs := lazymatch goal with |- (if ?b then _ else _) = _ => decide_atom b end.
+Ltac step_rhs :=
+  lazymatch goal with
+  | |- _ = ?rhs => lazymatch rhs with
+                   | context [if ?b then _ else _] => decide_atom b
+                   | context [match ?o with Some _ => _ | None => _ end] => let E := fresh "E" in destruct o eqn:E
+                   | context [let '(_, _) := ?p in _] => let E := fresh "E" in destruct p eqn:E
+                   end
+  end.
+(* contradictory decisions about the first byte *)
+Ltac byte_facts :=
+  repeat match goal with
+         | H : (_ =? _)%N = true |- _ => apply N.eqb_eq in H
+         | H : (_ =? _)%N = false |- _ => apply N.eqb_neq in H
+         end;
+  subst; try discriminate; try congruence;
+  try (match goal with H : _ = true |- _ => vm_compute in H; discriminate H | H : _ = false |- _ => vm_compute in H; discriminate H end).
+
 Theorem gen_sqlToken_eq : forall (s : bytes) (fuel : nat), s <> [] -> (List.length s < fuel)%nat ->
   sqlToken (zs s) fuel = Some (kind_code (fst (g_token s)), Z.of_nat (snd (g_token s))).
 Proof.
@@ -254,63 +287,34 @@ Proof.
   assert (Hf' : (List.length r < fuel)%nat) by (cbn in Hf; lia).
   unfold sqlToken, g_token.
   change (nth (Z.to_nat 0) (zs (c :: r)) 0) with (Z.of_N c).
+  change (nth (Z.to_nat 1) (zs (c :: r)) 0) with (nth 1 (zs (c :: r)) 0).
   cbv zeta.
-  rewrite space_zs, idchar_zs.
-  change [239; 187; 191] with (zs [239; 187; 191]%N). change [45; 45] with (zs [45; 45]%N).
-  change [47; 42] with (zs [47; 42]%N). change [42; 47] with (zs [42; 47]%N). change [61; 61] with (zs [61; 61]%N).
-  rewrite !has_prefix_zs.
-  change 10 with (Z.of_N 10). change 93 with (Z.of_N 93). change 39 with (Z.of_N 39) at 3 4.
-  change 2 with (Z.of_nat 2) at 2 3 4.
+  rewrite ?space_zs, ?idchar_zs, ?nth_zs.
+  repeat match goal with
+         | |- context [bytes_has_prefix (zs (c :: r)) ?l] =>
+             let l' := eval cbv in (map Z.to_N l) in change l with (zs l'); rewrite has_prefix_zs
+         | |- context [bytes_index_byte ?t ?k] =>
+             lazymatch k with Z.of_N _ => fail | _ => let k' := eval cbv in (Z.to_N k) in change (bytes_index_byte t k) with (bytes_index_byte t (Z.of_N k')) end
+         | |- context [bytes_index ?t ?l] =>
+             lazymatch l with zs _ => fail | _ => let l' := eval cbv in (map Z.to_N l) in change (bytes_index t l) with (bytes_index t (zs l')) end
+         | |- context [slice_from (zs (c :: r)) ?k] =>
+             lazymatch k with Z.of_nat _ => fail | _ => let k' := eval cbv in (Z.to_nat k) in change (slice_from (zs (c :: r)) k) with (slice_from (zs (c :: r)) (Z.of_nat k')) end
+         end.
   rewrite ?skipn_zs, ?index_byte_zs, ?index2_zs, ?zopt_lt0, !zlen_zs.
-  n2z.
-  destruct (negb (c =? 11)%N && g_is_space c).
-  { (* white space *)
-    lazymatch goal with |- ?lhs = _ => lazymatch lhs with ?F ?a0 ?b0 => pose (LOOP := F) end end.
-    change 1 with (Z.of_nat (List.length [c])).
-    rewrite (run_loop_spec _ (c :: r) g_is_space isSQLSpace (fun n => Some (tkSpace, n)) LOOP space_zs) with (suf := r);
-      [reflexivity|intros; rewrite zlen_zs; reflexivity|exact Hs|exact Hf']. }
-  destruct (g_has_prefix [239%N; 187%N; 191%N] (c :: r)); [reflexivity|].
-  destruct (g_has_prefix [45%N; 45%N] (c :: r)).
-  { destruct (g_index_byte 10 (c :: r)); reflexivity. }
-  destruct (g_has_prefix [47%N; 42%N] (c :: r) && (2 <? Z.of_nat (List.length (c :: r)))) eqn:Ec.
-  { replace (Nat.ltb 2 (List.length (c :: r))) with true
-      by (symmetry; apply Nat.ltb_lt; apply andb_prop in Ec; destruct Ec as [_ Ec]; apply Z.ltb_lt in Ec; lia).
-    apply andb_prop in Ec. destruct Ec as [Ec _]. rewrite Ec. cbn [andb].
-    destruct (g_index2 42 47 (skipn 2 (c :: r))); cbn [zopt fst snd kind_code]; [do 2 f_equal; lia|reflexivity]. }
-  replace (g_has_prefix [47%N; 42%N] (c :: r) && Nat.ltb 2 (List.length (c :: r))) with false.
-  2:{ symmetry. apply andb_false_iff. apply andb_false_iff in Ec. destruct Ec as [Ec|Ec]; [left; exact Ec|right].
-      apply Nat.ltb_ge. apply Z.ltb_ge in Ec. lia. }
-  destruct ((c =? 39)%N || (c =? 34)%N || (c =? 96)%N).
-  { lazymatch goal with |- ?lhs = _ => lazymatch lhs with ?F ?a0 ?b0 => pose (LOOP := F) end end.
-    change 1 with (Z.of_nat (List.length [c])).
-    rewrite (quote_loop_spec (c :: r) c LOOP) with (suf := r); [|intros; rewrite zlen_zs; reflexivity|exact Hs|exact Hf'].
-    destruct (g_quote_loop c r) as [t k]. cbn [fst snd]. destruct t; reflexivity. }
-  destruct (c =? 91)%N.
-  { destruct (g_index_byte 93 (c :: r)); cbn [zopt fst snd kind_code]; [do 2 f_equal; lia|reflexivity]. }
-  destruct (c =? 59)%N; [reflexivity|]. destruct (c =? 46)%N; [reflexivity|]. destruct (c =? 40)%N; [reflexivity|].
-  destruct (c =? 61)%N. { destruct (g_has_prefix [61%N; 61%N] (c :: r)); reflexivity. }
-  destruct ((c =? 36)%N || (c =? 64)%N || (c =? 58)%N || (c =? 35)%N).
-  { lazymatch goal with |- ?lhs = _ => lazymatch lhs with ?F ?a0 ?b0 ?c0 => pose (LOOP := F) end end.
-    change 1 with (Z.of_nat (List.length [c])).
-    erewrite (var_loop_spec (c :: r) LOOP) with (suf := r); cycle 2.
-    - intros f n ids. rewrite zlen_zs. reflexivity.
-    - exact Hs.
-    - exact Hf'.
-    - lia.
-    - reflexivity.
-    - intros f n. rewrite zlen_zs. reflexivity. }
-  destruct (g_is_idchar c); [|reflexivity].
-  change (nth (Z.to_nat 1) (zs (c :: r)) 0) with (nth 1 (zs (c :: r)) 0). rewrite nth_zs, eqb_c by lia. cbn [Z.to_N].
-  replace (Z.ltb 1 (Z.of_nat (List.length (c :: r)))) with (Nat.ltb 1 (List.length (c :: r)))
-    by (destruct (Nat.ltb_spec 1 (List.length (c :: r))), (Z.ltb_spec 1 (Z.of_nat (List.length (c :: r)))); try reflexivity; lia).
-  destruct (((c =? 120)%N || (c =? 88)%N) && Nat.ltb 1 (List.length (c :: r)) && (nth 1 (c :: r) 0%N =? 39)%N).
-  { change (slice_from (zs (c :: r)) 2) with (slice_from (zs (c :: r)) (Z.of_nat 2)).
-    rewrite skipn_zs, index_byte_zs, zopt_lt0.
-    destruct (g_index_byte 39 (skipn 2 (c :: r))); cbn [zopt fst snd kind_code]; [do 2 f_equal; lia|reflexivity]. }
-  lazymatch goal with |- ?lhs = _ => lazymatch lhs with ?F ?a0 ?b0 => pose (LOOP := F) end end.
-  change 1 with (Z.of_nat (List.length [c])).
-  rewrite (run_loop_spec _ (c :: r) g_is_idchar isSQLIDChar
-             (fun n => if ((48 <=? c)%N && (c <=? 57)%N) then Some (tkOther, n) else Some (tkWord, n)) LOOP idchar_zs) with (suf := r);
-    [|intros; rewrite zlen_zs; reflexivity|exact Hs|exact Hf'].
-  destruct ((48 <=? c)%N && (c <=? 57)%N); reflexivity.
+  rewrite ?ltb_nat_c by lia. n2z. cbn [Z.to_nat Pos.to_nat Pos.iter_op Nat.add].
+  repeat step_lhs;
+  (* every leaf: a result, or one of the four loops entered at n = 1 *)
+  try (change 1 with (Z.of_nat (List.length [c]));
+       first
+         [ erewrite (run_loop_spec _ (c :: r) g_is_space isSQLSpace) with (suf := r);
+             [|exact space_zs|intros; rewrite zlen_zs; reflexivity|exact Hs|exact Hf']
+         | erewrite (run_loop_spec _ (c :: r) g_is_idchar isSQLIDChar) with (suf := r);
+             [|exact idchar_zs|intros; rewrite zlen_zs; reflexivity|exact Hs|exact Hf']
+         | erewrite (quote_loop_spec (c :: r) c) with (suf := r); [|intros; rewrite zlen_zs; reflexivity|exact Hs|exact Hf']
+         | erewrite (var_loop_spec (c :: r)) with (suf := r); cycle 2;
+             [intros ? ? ?; rewrite zlen_zs; reflexivity|exact Hs|exact Hf'|lia| |intros ? ?; rewrite zlen_zs; reflexivity] ]);
+  cbv beta;
+  repeat step_rhs;
+  cbn [fst snd kind_code zopt];
+  first [reflexivity | (do 2 f_equal; clear; lia) | solve [byte_facts] | (exfalso; lia)].
 Qed.
